@@ -139,8 +139,8 @@ def opRocci (a : Args) : Except String String := do
     ("spec.sentinels", fmtBool (C16.sentinelsOK u s othr)),
     ("spec.length", fmtBool (C16.supportLengthOK s fnr fpr thr nb extra n))]))
 
-/-- op `band`: the well-formedness clauses on one observed band (used for the functions whose
-band computation is not modelled).  Keys: `n`, `lo hi`, `eps`. -/
+/-- op `band`: the well-formedness clauses on one observed band (the output-level clauses of C16
+for `fixed_width_band_ci`; its internals are tied to the model by the ops of OpsC16Fwb).  Keys: `n`, `lo hi`, `eps`. -/
 def opBand (a : Args) : Except String String := do
   let n ← getNat a "n"
   let obs ← getBand16 a "lo" "hi"
